@@ -93,6 +93,7 @@ func c12A(e *core.Env) {
 	}
 	cfg := map[string]*config.Host{}
 	anyForever := false
+	withCreds := e.Choose("gen", 3, "creds") == 2
 	for _, h := range hosts {
 		h.Has = e.Choose("gen", 3, "has") != 2
 		g := regmodel.New(h.Name)
@@ -112,6 +113,9 @@ func c12A(e *core.Env) {
 		}
 		ch := config.HostNewName(h.Name)
 		ch.Priority = h.Priority
+		if withCreds {
+			ch.User, ch.Pass = "user-"+h.Name, "pass-"+h.Name
+		}
 		cfg[h.Name] = ch
 	}
 	for _, h := range hosts[1:] {
@@ -160,83 +164,166 @@ func c12A(e *core.Env) {
 	} else if effMax < delayInit {
 		effMax = delayInit
 	}
-	sample := map[string]any{"mode": "A: one logical GET through reghttp", "retry_limit": limit, "delay_init": delayInit.String(), "delay_max": effMax.String(), "hosts": hosts}
-	e.SetCase(fmt.Sprintf("A|%d|%v|%v|%+v", limit, delayInit, delayMax, hosts), true, sample)
-
-	// optional second phase for mirror-order clause (ii): first make one host answer 429 Retry-After: 60
+	// a short sequence of logical requests through one client; a response may be held open
+	// while the next request is made (overlapping lifetimes, still one caller)
+	nreq := 1 + e.Choose("gen", 4, "nreq")
+	type lreq struct {
+		Hold    bool   `json:"hold_open_during_next"`
+		ThinkMS int    `json:"think_ms_before"`
+		resp    *reghttp.Resp
+		err     error
+		got     []byte
+		rerr    error
+		done    bool
+	}
+	reqs := make([]*lreq, nreq)
+	for i := range reqs {
+		reqs[i] = &lreq{Hold: e.Choose("gen", 3, "hold") == 2, ThinkMS: []int{0, 1, 1000, 30000, 200000}[e.Choose("gen", 5, "think")]}
+	}
+	sample := map[string]any{"mode": "A: logical GETs through reghttp", "retry_limit": limit, "delay_init": delayInit.String(), "delay_max": effMax.String(), "hosts": hosts, "requests": reqs, "credentials": withCreds}
+	e.SetCase(fmt.Sprintf("A|%d|%v|%v|%+v|%d|%v", limit, delayInit, delayMax, hosts, nreq, withCreds), true, sample)
+	curReq := -1
+	reqOf := map[int]int{}
+	net.OnDeliver = nil
+	origHook := net.Hook
+	net.Hook = func(x *simnet.Exchange) *simnet.Fault {
+		reqOf[x.Seq] = curReq
+		return origHook(x)
+	}
 	start := time.Now()
-	req := &reghttp.Req{Host: "up.test", Method: "GET", Repository: "r", Path: "blobs/" + dig, ExpectLen: int64(len(blobData))}
-	simrt.Event("Do GET blob limit=%d delayInit=%v delayMax=%v", limit, delayInit, effMax)
-	resp, err := hc.Do(context.Background(), req)
-	var got []byte
-	var rerr error
-	if err == nil {
-		got, rerr = io.ReadAll(resp)
-		_ = resp.Close()
+	finish := func(i int) {
+		r := reqs[i]
+		if r.done || r.err != nil {
+			r.done = true
+			return
+		}
+		curReq = i
+		r.got, r.rerr = io.ReadAll(r.resp)
+		_ = r.resp.Close()
+		r.done = true
+		simrt.Event("request %d read: err=%v bytes=%d", i, r.rerr, len(r.got))
+	}
+	var opTimes []time.Duration
+	for i, r := range reqs {
+		if r.ThinkMS > 0 {
+			simrt.Sleep(time.Duration(r.ThinkMS) * time.Millisecond)
+		}
+		t0 := time.Now()
+		curReq = i
+		req := &reghttp.Req{Host: "up.test", Method: "GET", Repository: "r", Path: "blobs/" + dig, ExpectLen: int64(len(blobData))}
+		simrt.Event("request %d Do (limit=%d delayInit=%v delayMax=%v)", i, limit, delayInit, effMax)
+		r.resp, r.err = hc.Do(context.Background(), req)
+		simrt.Event("request %d Do returned %v", i, r.err)
+		if i > 0 && !reqs[i-1].done {
+			finish(i - 1)
+		}
+		if !r.Hold || i == len(reqs)-1 {
+			finish(i)
+		}
+		opTimes = append(opTimes, time.Since(t0))
 	}
 	elapsed := time.Since(start)
-	simrt.Event("Do returned err=%v readErr=%v bytes=%d after %v", err, rerr, len(got), elapsed)
 	for k, v := range net.Fired {
 		for i := 0; i < v; i++ {
 			e.Fault(k)
 		}
 	}
-	// attempts per logical request
-	attempts := 0
+	// attempts per logical request (first-hop requests only)
+	attempts := map[int]int{}
 	for _, x := range net.Log {
 		if !x.Redirect {
-			attempts++
+			attempts[reqOf[x.Seq]]++
 		}
 	}
-	if attempts > limit+1 {
-		e.Violation("attempts", "attempts>limit+1", "one logical request was attempted %d times with retry limit %d", attempts, limit)
+	for i, n := range attempts {
+		if n > limit+1 {
+			e.Violation("attempts", "attempts>limit+1", "logical request %d was attempted %d times with retry limit %d", i, n, limit)
+		}
+		if n == limit+1 {
+			e.Probe("attempts==limit+1")
+		}
 	}
-	if attempts == limit+1 {
-		e.Probe("attempts==limit+1")
-	}
-	// spacing of attempts to a failing host / Retry-After
+	// spacing of attempts to a failing host / Retry-After, on the per-host timeline of the whole run
 	last := map[string]*simnet.Exchange{}
+	okCount := map[string]int{}
+	failedOther := map[string]bool{} // host had a backoff-class failure other than 429+Retry-After
+	type raWin struct {
+		until time.Duration
+		at    time.Duration
+		sec   int
+	}
+	ra := map[string]*raWin{}
 	for _, x := range net.Log {
+		if w := ra[x.Host]; w != nil && x.Sent > w.at && x.Sent < w.until-time.Millisecond && !failedOther[x.Host] {
+			e.Violation("backoff", "retry-after-ignored", "host %s answered 429 Retry-After %ds at %v, yet a request was sent to it at %v", x.Host, w.sec, w.at, x.Sent)
+		}
 		if p := last[x.Host]; p != nil {
 			pk := kindOf[p.Seq]
 			if pk == simnet.F429RetryAfter {
-				ra := 0
-				fmt.Sscanf(p.RespHdr.Get("Retry-After"), "%d", &ra)
-				if x.Sent < p.RespAt+time.Duration(ra)*time.Second-time.Millisecond {
-					e.Violation("backoff", "retry-after-ignored", "host %s answered 429 Retry-After %ds at %v, next request to it sent at %v", x.Host, ra, p.RespAt, x.Sent)
-				}
 				e.Probe("retry-after-honoured-checked")
-			} else if backoffClass(pk) && !(pk == simnet.FTruncate && (p.Status < 200 || p.Status > 299)) {
-				// (a truncated body only counts as a failure when it was the body of a successful reply)
+			} else if pk == simnet.FTruncate {
+				// a truncated body is a failure from the moment the client's read runs into it
+				if p.Status >= 200 && p.Status <= 299 && p.BodyErrAt > 0 && x.Sent > p.BodyErrAt && okCount[x.Host] < 6 {
+					if x.Sent-p.Sent < delayInit {
+						e.Violation("backoff", "no-backoff", "a body from host %s (request sent at %v) broke off at %v, next request to it sent at %v: less than delayInit %v after the failed one", x.Host, p.Sent, p.BodyErrAt, x.Sent, delayInit)
+					}
+					e.Probe("backoff-spacing-checked")
+				}
+			} else if backoffClass(pk) && okCount[x.Host] < 6 {
 				if x.Sent-p.Sent < delayInit {
 					e.Violation("backoff", "no-backoff", "host %s failed (%s) on a request sent at %v, next request to it sent at %v: less than delayInit %v apart", x.Host, simnet.FaultNames[pk], p.Sent, x.Sent, delayInit)
 				}
 				e.Probe("backoff-spacing-checked")
 			}
 		}
+		k := kindOf[x.Seq]
+		if k == simnet.F429RetryAfter {
+			sec := 0
+			fmt.Sscanf(x.RespHdr.Get("Retry-After"), "%d", &sec)
+			until := x.RespAt + time.Duration(sec)*time.Second
+			if w := ra[x.Host]; w == nil || until > w.until {
+				ra[x.Host] = &raWin{until: until, at: x.RespAt, sec: sec}
+			}
+		} else if backoffClass(k) && !(k == simnet.FTruncate && (x.Status < 200 || x.Status > 299)) {
+			failedOther[x.Host] = true
+		}
+		if x.Status >= 200 && x.Status < 300 && k == 0 {
+			okCount[x.Host]++
+		}
 		last[x.Host] = x
 	}
 	// termination within a budget derived from the configuration (liveness; also under forever-repeating servers)
 	budget := time.Duration(limit+2)*(effMax+121*time.Second) + time.Minute
-	if elapsed > budget {
-		e.Violation("liveness", "slow-termination", "request took %v of simulated time, budget %v", elapsed, budget)
+	for i, d := range opTimes {
+		if d > budget {
+			e.Violation("liveness", "slow-termination", "logical request %d took %v of simulated time, budget %v", i, d, budget)
+		}
 	}
+	_ = elapsed
 	if anyForever {
 		e.Probe("forever-repeating-server")
 	}
-	// data integrity of what was delivered on success
-	if err == nil && rerr == nil && !bytes.Equal(got, blobData) {
-		e.Violation("result", "wrong-bytes", "read completed without error but delivered %d bytes that differ from the blob (%d bytes)", len(got), len(blobData))
+	if nreq > 1 {
+		e.Probe("several-logical-requests")
 	}
-	if err == nil && rerr == nil {
-		e.Probe("request-succeeded")
-	} else {
-		e.Probe("request-failed")
+	// data integrity of what was delivered on success
+	for i, r := range reqs {
+		if r.err == nil && r.rerr == nil && !bytes.Equal(r.got, blobData) {
+			e.Violation("result", "wrong-bytes", "request %d completed without error but delivered %d bytes that differ from the blob (%d bytes)", i, len(r.got), len(blobData))
+		}
+		if r.err == nil && r.rerr == nil {
+			e.Probe("request-succeeded")
+		} else {
+			e.Probe("request-failed")
+		}
 	}
 	// mirror order (i): the first visit of each host, with every host idle at the start
 	var order []string
 	seen := map[string]bool{}
 	for _, x := range net.Log {
+		if reqOf[x.Seq] != 0 {
+			break
+		}
 		if !seen[x.Host] {
 			seen[x.Host] = true
 			order = append(order, x.Host)
